@@ -241,6 +241,84 @@ def handleRunMode (fields : List String) : String :=
     | _, _ => "BADREQ query"
   | _ => "BADREQ fields"
 
+def showOutcomeValue : Outcome Value → String
+  | .ok v => "VAL " ++ showValue v
+  | .err k => "ERR " ++ k
+  | .panic p => "PANIC " ++ p
+  | .unmodelled w => "SKIP " ++ w
+
+def showOrdering : Ordering → String
+  | .lt => "lt" | .eq => "eq" | .gt => "gt"
+
+/-- `VALOP <op> <value tokens> <value tokens>`: the public `Value` operators -/
+def handleValop (fields : List String) : String :=
+  match fields with
+  | op :: a :: b :: _ =>
+    match pValue (toks a), pValue (toks b) with
+    | some (x, []), some (y, []) =>
+      match op with
+      | "cmp" => "ORD " ++ showOrdering (Value.cmp x y)
+      | "eq" => if x == y then "B1" else "B0"
+      | "add" => showOutcomeValue (Value.add x y)
+      | "sub" => showOutcomeValue (Value.sub x y)
+      | "mul" => showOutcomeValue (Value.mul x y)
+      | "div" => showOutcomeValue (Value.div x y)
+      | _ => "BADREQ op"
+    | _, _ => "BADREQ values"
+  | _ => "BADREQ fields"
+
+def showOutcomeF64 : Outcome F64 → String
+  | .ok f => "F" ++ pad16 f.toBits
+  | .err k => "ERR " ++ k
+  | .panic p => "PANIC " ++ p
+  | .unmodelled w => "SKIP " ++ w
+
+/-- `NUMSTR <hex text>`: from_string / TryFrom<&Value> for f64 of the string / display of the result -/
+def handleNumstr (fields : List String) : String :=
+  match fields with
+  | h :: _ =>
+    match stringOfHex h.toList with
+    | some s =>
+      let v := Value.fromString s
+      "FS " ++ showValue v ++ "\tCO " ++ showOutcomeF64 (Value.toF64 (.str s))
+    | none => "BADREQ hex"
+  | _ => "BADREQ fields"
+
+/-- `EVAL <expr tokens> <record: O<n> …> [dates]`: eval_value on one record -/
+def handleEval (fields : List String) : String :=
+  match fields with
+  | e :: r :: rest =>
+    let dates := match rest with
+      | d :: _ => parseDates d
+      | [] => []
+    match pExpr (toks e), pValue (toks r) with
+    | some (ex, []), some (.obj kvs, []) => showOutcomeValue (evalValue (mkExt dates) kvs ex)
+    | _, _ => "BADREQ eval"
+  | _ => "BADREQ fields"
+
+/-- `F64 <op> <bits> <bits>`: the soft-float against hardware -/
+def handleF64 (fields : List String) : String :=
+  match fields with
+  | op :: a :: b :: _ =>
+    let x := F64.ofBits (natOfHex a.toList)
+    let y := F64.ofBits (natOfHex b.toList)
+    let r : Option F64 := match op with
+      | "add" => some (F64.add x y) | "sub" => some (F64.sub x y) | "mul" => some (F64.mul x y)
+      | "div" => some (F64.div x y) | "floor" => some (F64.floor x) | "ceil" => some (F64.ceil x)
+      | "round" => some (F64.round x) | "abs" => some (F64.abs x) | "trunc" => some (F64.trunc x)
+      | _ => none
+    match r with
+    | some f => "F" ++ pad16 f.toBits
+    | none =>
+      match op with
+      | "ocmp" => "ORD " ++ showOrdering (F64.ocmp x y)
+      | "toi64" => "I" ++ toString (F64.toI64 x)
+      | "fromfloat" => "VAL " ++ showValue (Value.fromFloat x)
+      | "display" => "TEXT " ++ hexOfString (F64.display x)
+      | "display2" => "TEXT " ++ hexOfString (F64.displayPrec 2 x)
+      | _ => "BADREQ op"
+  | _ => "BADREQ fields"
+
 def handle (line : String) : String :=
   match line.splitOn "\t" with
   | "KW" :: rest => handleKw rest
@@ -262,6 +340,10 @@ def handle (line : String) : String :=
   | "CLI" :: rest => Ag.OutProto.handleCli rest
   | "PRINT" :: rest => Ag.OutProto.handlePrint rest
   | "RUNMODE" :: rest => handleRunMode rest
+  | "VALOP" :: rest => handleValop rest
+  | "NUMSTR" :: rest => handleNumstr rest
+  | "EVAL" :: rest => handleEval rest
+  | "F64" :: rest => handleF64 rest
   | "PING" :: _ => "PONG"
   | _ => "BADREQ cmd"
 
